@@ -1065,8 +1065,15 @@ func c15Handshaken(server bool, wbuf int) (*ws.Conn, func() []byte, error) {
 		n := len(rw.conn.Written())
 		return conn, func() []byte { return rw.conn.Written()[n:] }, nil
 	}
+	return wsDialed(256, wbuf, false, nil)
+}
+
+// wsDialed: a client connection from Dialer.Dial over a scripted transport; the server's 101 response and `after` (what
+// the server sends first) arrive together, as one piece. The function returned gives what the client wrote after its
+// handshake request.
+func wsDialed(rbuf, wbuf int, deflate bool, after []byte) (*ws.Conn, func() []byte, error) {
 	var sc *hsScript
-	d := ws.Dialer{ReadBufferSize: 256, WriteBufferSize: wbuf}
+	d := ws.Dialer{ReadBufferSize: rbuf, WriteBufferSize: wbuf, EnableCompression: deflate}
 	d.NetDial = func(network, addr string) (net.Conn, error) {
 		sc = &hsScript{respond: func(req []byte) []byte {
 			k := ""
@@ -1075,7 +1082,11 @@ func c15Handshaken(server bool, wbuf int) (*ws.Conn, func() []byte, error) {
 					k = l[len("sec-websocket-key: "):]
 				}
 			}
-			return []byte("HTTP/1.1 101 Switching Protocols\r\nUpgrade: websocket\r\nConnection: Upgrade\r\nSec-WebSocket-Accept: " + hsAccept(k) + "\r\n\r\n")
+			ext := ""
+			if deflate {
+				ext = "Sec-WebSocket-Extensions: permessage-deflate; server_no_context_takeover; client_no_context_takeover\r\n"
+			}
+			return append([]byte("HTTP/1.1 101 Switching Protocols\r\nUpgrade: websocket\r\nConnection: Upgrade\r\n"+ext+"Sec-WebSocket-Accept: "+hsAccept(k)+"\r\n\r\n"), after...)
 		}}
 		return sc, nil
 	}
@@ -1084,8 +1095,6 @@ func c15Handshaken(server bool, wbuf int) (*ws.Conn, func() []byte, error) {
 		return nil, nil, err
 	}
 	n := sc.req.Len()
-	var mu sync.Mutex
-	_ = mu
 	return conn, func() []byte { return append([]byte(nil), sc.req.Bytes()[n:]...) }, nil
 }
 
